@@ -582,7 +582,7 @@ fn group_transforms(rep: &mut Report, rng: &mut Rng, _args: &Args) {
         rep.config(&format!("bls12_381::Fr x G1Projective/{}", D::KIND));
         for n64 in exact_sizes::<Fr, D>(&p, 64) {
             let n = n64 as usize;
-            let Some(base) = D::new(n) else { continue };
+            let Some(Some(base)) = rep.total(&format!("domain/{}/new", D::KIND), || json!({"field": "bls12_381::Fr", "size": n}), || D::new(n)) else { continue };
             let g = base.group_gen();
             for (h, hname) in offsets::<Fr>(rng, g, n, 3) {
                 let Some(dom) = base.get_coset(h) else { continue };
@@ -666,7 +666,7 @@ fn api<F: FftField + PrimeField, D: Kind<F>>(rep: &mut Report, rng: &mut Rng, ar
     let lag_cap = args.pick(64, 128) as usize;
     for &n64 in &sizes {
         let n = n64 as usize;
-        let Some(base) = D::new(n) else { continue };
+        let Some(Some(base)) = rep.total(&format!("domain/{}/new", D::KIND), || json!({"field": fname, "size": n}), || D::new(n)) else { continue };
         if base.size() != n {
             continue;
         }
@@ -805,7 +805,7 @@ fn api<F: FftField + PrimeField, D: Kind<F>>(rep: &mut Report, rng: &mut Rng, ar
             let es = elems(g, F::one(), n);
             for &m64 in sizes.iter().filter(|m| n64 % **m == 0) {
                 let m = m64 as usize;
-                let Some(sub) = D::new(m) else { continue };
+                let Some(Some(sub)) = rep.total(&format!("domain/{}/new", D::KIND), || json!({"field": fname, "size": m}), || D::new(m)) else { continue };
                 if sub.size() != m {
                     continue;
                 }
